@@ -221,6 +221,7 @@ type DerivedCase struct {
 }
 
 var subDerived = ev.Register("derived", func(c DerivedCase) error {
+	c.Base, c.Arg = addrgen.Raw(c.Base), addrgen.Raw(c.Arg)
 	var base sourceaddrs.Source
 	if c.Op == "make" {
 		// MakeRemoteSource(type, URL, sub-path): Base is the URL text, Arg is "type|sub-path"
@@ -380,7 +381,7 @@ func TestPropDerived(t *testing.T) {
 		switch c.Op {
 		case "make":
 			c.Base = rapid.SampledFrom([]string{"https://example.com/repo.git", "https://example.com/pkg.tgz", "ssh://git@example.com/repo.git", "https://example.com/dl/?archive=tgz",
-				"https://example.com/a%20b/pkg.tar.gz?x=1", "https://EXAMPLE.com:443/Repo.git?ref=v1", "https://example.com/pkg.zip?archive=tgz&checksum=1", "http://example.com/repo.git", "https://example.com"}).Draw(t, "url")
+				"https://example.com/a%20b/pkg.tar.gz?x=1", "https://EXAMPLE.com:443/Repo.git?ref=v1", "https://example.com/pkg.zip?archive=tgz&checksum=1", "http://example.com/repo.git", "https://example.com", "https://[2001:db8::1]:8443/x.tgz", "https://[::1]/pkg.tgz?sig=ab::cd"}).Draw(t, "url")
 			c.Arg = rapid.SampledFrom([]string{"git", "https", "http", "Git", "GIT", "HTTPS", "Https", "hg", "", "git::", " git"}).Draw(t, "type") + "|" +
 				rapid.SampledFrom([]string{"", "", "modules/a", "x", "with space", "a//b", "../up", "."}).Draw(t, "makesub")
 		case "resolve":
